@@ -38,10 +38,10 @@ SPEC = {
 
 
 def run(ctx: Ctx):
-    frames.orthonormal(ctx, "R1.1")
-    frames.right_handed_and_anchored(ctx, "R17.1", "R17.2")
-    frames.inputs_untouched(ctx, "R17.3")
-    frames.exact_degeneracy_test(ctx, "R17.6")
-    rotmat.rules(ctx)
+    ctx.attempt("R1.1", lambda: frames.orthonormal(ctx, "R1.1"))
+    ctx.attempt("R17.1", lambda: frames.right_handed_and_anchored(ctx, "R17.1", "R17.2"))
+    ctx.attempt("R17.3", lambda: frames.inputs_untouched(ctx, "R17.3"))
+    ctx.attempt("R17.6", lambda: frames.exact_degeneracy_test(ctx, "R17.6"))
+    ctx.attempt("R17.4", lambda: rotmat.rules(ctx))
     from ..util import persistent_state
-    persistent_state(ctx, "R17.7", [f_ for f_ in (ctx.repo.func(q_, required=False) for q_ in ('calcule_base', 'rotation_matrix')) if f_ is not None], "building a frame or a rotation matrix")
+    ctx.attempt("R17.7", lambda: persistent_state(ctx, "R17.7", [f_ for f_ in (ctx.repo.func(q_, required=False) for q_ in ('calcule_base', 'rotation_matrix')) if f_ is not None], "building a frame or a rotation matrix"))
